@@ -316,60 +316,7 @@ func c08(c *core.Ctx) {
 
 	// -----------------------------------------------------------------------------------------------------------------
 	c.Clause("C08.2", "data before index before cursor: BitCask.Put flushes the record, then (only on success) stores its position in LevelDB, then (only on success) moves the bitcask cursor, which advances by the flushed length; the asynchronous writer reports Done (which releases the write-ahead copy) only after put succeeded and the write extension ran")
-	c.Run("BitCask.Put", func() {
-		fn := c.Fn(st + ".BitCask.Put")
-		caf := c.Method(st+".BitCask", "checkAndFlush")
-		setPos := c.FuncObj(ldb + ".SetPos")
-		setCur := c.FuncObj(ldb + ".SetCurrentPos")
-		curOff := c.FieldVar(st+".BitCask", "CurOffset")
-		fl := oe.performs(fn, 2, 1, true, caf)
-		sp := oe.performs(fn, 2, 1, true, setPos)
-		sc := oe.performs(fn, 2, 1, true, setCur)
-		oe.afterSites("BitCask.Put:checkAndFlush≺SetPos", callsTo("checkAndFlush", caf), "leveldb.SetPos", sp)
-		oe.afterSites("BitCask.Put:SetPos≺SetCurrentPos", callsTo("SetPos", setPos), "leveldb.SetCurrentPos", sc)
-		sts := storesToDeep(fn, curOff)
-		oe.after("BitCask.Put:SetPos≺CurOffset+=", callsTo("SetPos", setPos), "the advance of BitCask.CurOffset", toInstrs(sts))
-		if len(fl) == 1 && len(sp) == 1 && len(sc) == 1 {
-			var length ssa.Value
-			if fl[0].call.Parent() == fn {
-				length = core.ResultValues(fl[0].call)[0]
-			}
-			ok := len(sts) >= 1
-			for _, s := range sts {
-				sl := core.Slice(s.Val)
-				if length == nil || !sl[length] || !core.SliceHasField(sl, curOff) || !core.SliceHasOp(sl, token.ADD) {
-					ok = false
-				}
-			}
-			c.Check("BitCask.Put:CurOffset+=flushed-length", "value-flow", ok, fn.Pos(), "the bitcask cursor advances by the length checkAndFlush reported")
-			// the position stored in the index is computed from the cursor the record was flushed at, for the same (flag, key)
-			pos := sp[0].sliceAlong(argN(sp[0].call, 3))
-			ok = core.SliceHasField(pos, curOff) && core.SliceHasField(pos, c.FieldVar(st+".BitCask", "CurIndex")) &&
-				len(fn.Params) == 4 && sp[0].sliceAlong(argN(sp[0].call, 1))[fn.Params[1]] && sp[0].sliceAlong(argN(sp[0].call, 2))[fn.Params[2]]
-			c.Check("BitCask.Put:SetPos(flag,key,CurOffset|CurIndex)", "value-flow", ok, sp[0].call.Pos(), "the index entry of (flag, key) is the bitcask cursor (offset | file index) the record was flushed at")
-			cur := sc[0].sliceAlong(argN(sc[0].call, 2))
-			c.Check("BitCask.Put:SetCurrentPos(CurOffset|CurIndex)", "value-flow", core.SliceHasField(cur, curOff), sc[0].call.Pos(), "the persisted cursor is computed from BitCask.CurOffset")
-		}
-		// checkAndFlush: flush heeded, at the cursor, length handed back
-		cf := c.Fn(st + ".BitCask.checkAndFlush")
-		flushObj := c.FuncObj(st + ".FileUtilsFlush")
-		ff := heeded(c, cf, flushObj, core.ErrNonNil, 1, nil)
-		if len(ff) == 1 {
-			length := core.ResultValues(ff[0])[0]
-			ok := core.SliceHasField(core.Slice(argN(ff[0], 1)), curOff) && len(cf.Params) == 2 && core.Slice(argN(ff[0], 2))[cf.Params[1]]
-			for _, r := range realReturns(cf) {
-				if core.ClassifyReturn(r, nil, nil) != core.RetFailure && (length == nil || !core.Derived(length)[core.RetVal(r, 0)]) {
-					ok = false
-				}
-			}
-			c.Check("checkAndFlush:FileUtilsFlush(CurOffset,data)→length", "value-flow", ok, ff[0].Pos(), "the record is flushed at the bitcask cursor and the flushed length is handed back")
-		}
-		// the index primitives pass the LevelDB error on
-		dbPut := c.Method(ldb+".DatabasePutter", "Put")
-		propagated(c, c.Fn(ldb+".SetPos"), 1, dbPut)
-		propagated(c, c.Fn(ldb+".SetCurrentPos"), 1, dbPut)
-		propagated(c, c.Fn(ldb+".SetCurrentBlock"), 1, dbPut)
-	})
+	c.Run("BitCask.Put", func() { c08BitCaskPut(c, oe) })
 	c.Run("SyncFileDB.start", func() {
 		fn := c.Fn(st + ".SyncFileDB.start")
 		put := c.Method(st+".SyncFileDB", "put")
@@ -478,6 +425,10 @@ func c08(c *core.Ctx) {
 		for _, s := range append(append([]dsite{}, sc...), fl...) {
 			c.Check("blockCommit→"+objName(core.CalleeObj(s.call)), "heeded-guard", s.returnedAlong(fn), s.call.Pos(), "a failed candidate write must fail blockCommit")
 		}
+		// what was put into the candidate cache reaches the file: after a SetCandidates no successful exit of the function that called it is
+		// reachable around Context.Flush — or the skip is a test of a dirty flag that every writer of the cache raises (the half-kept flag
+		// of the seeded changes leaves vote-only updates in memory; a restarted node then ranks from stale votes)
+		c08CandidatesFlushed(c)
 		// the pointer is moved to the block being committed
 		for _, s := range scb {
 			sl := s.sliceAlong(argN(s.call, 1))
@@ -648,4 +599,103 @@ func loadAddr(v ssa.Value) ssa.Value {
 		return u.X
 	}
 	return nil
+}
+
+// c08CandidatesFlushed: what blockCommit puts into the candidate cache reaches context.data (see the call site in C08.3). Evaluated under
+// C08.3 and C10.9.
+func c08CandidatesFlushed(c *core.Ctx) {
+	const st = "store"
+	fn := c.Fn(st + ".ChainDatabase.blockCommit")
+	setCands := c.Method(st+".RunContext", "SetCandidates")
+	ctxFlush := c.Method(st+".RunContext", "Flush")
+	sc := deepSites(fn, callsTo("SetCandidates", setCands), 2)
+	c.Floor("blockCommit/SetCandidates", len(sc), 1)
+	var cstate []*types.Var
+	ccst := c.Struct(st + ".CandidateCache")
+	for i := 0; i < ccst.NumFields(); i++ {
+		cstate = append(cstate, ccst.Field(i))
+	}
+	for i, s := range sc {
+		k := "blockCommit:SetCandidates⇒Context.Flush"
+		if len(sc) > 1 {
+			k += "#" + string(rune('a'+i))
+		}
+		writtenOrFlaggedFrom(c, k, s.call.Parent(), s.call, ctxFlush, cstate, c.Fn(st+".RunContext.load"))
+	}
+}
+
+// c08BitCaskPut: data before index before cursor in BitCask.Put, and the index position is the cursor as it is after the flush. Evaluated
+// under C08.2 and C09.8 (the persisted account a reader gets once the write-behind queue has drained is the stable view's).
+func c08BitCaskPut(c *core.Ctx, oe *orderEngine) {
+	const st = "store"
+	const ldb = "store/leveldb"
+		fn := c.Fn(st + ".BitCask.Put")
+		caf := c.Method(st+".BitCask", "checkAndFlush")
+		setPos := c.FuncObj(ldb + ".SetPos")
+		setCur := c.FuncObj(ldb + ".SetCurrentPos")
+		curOff := c.FieldVar(st+".BitCask", "CurOffset")
+		fl := oe.performs(fn, 2, 1, true, caf)
+		sp := oe.performs(fn, 2, 1, true, setPos)
+		sc := oe.performs(fn, 2, 1, true, setCur)
+		oe.afterSites("BitCask.Put:checkAndFlush≺SetPos", callsTo("checkAndFlush", caf), "leveldb.SetPos", sp)
+		oe.afterSites("BitCask.Put:SetPos≺SetCurrentPos", callsTo("SetPos", setPos), "leveldb.SetCurrentPos", sc)
+		sts := storesToDeep(fn, curOff)
+		oe.after("BitCask.Put:SetPos≺CurOffset+=", callsTo("SetPos", setPos), "the advance of BitCask.CurOffset", toInstrs(sts))
+		if len(fl) == 1 && len(sp) == 1 && len(sc) == 1 {
+			var length ssa.Value
+			if fl[0].call.Parent() == fn {
+				length = core.ResultValues(fl[0].call)[0]
+			}
+			ok := len(sts) >= 1
+			for _, s := range sts {
+				sl := core.Slice(s.Val)
+				if length == nil || !sl[length] || !core.SliceHasField(sl, curOff) || !core.SliceHasOp(sl, token.ADD) {
+					ok = false
+				}
+			}
+			c.Check("BitCask.Put:CurOffset+=flushed-length", "value-flow", ok, fn.Pos(), "the bitcask cursor advances by the length checkAndFlush reported")
+			// the position stored in the index is computed from the cursor the record was flushed at, for the same (flag, key)
+			pos := sp[0].sliceAlong(argN(sp[0].call, 3))
+			ok = core.SliceHasField(pos, curOff) && core.SliceHasField(pos, c.FieldVar(st+".BitCask", "CurIndex")) &&
+				len(fn.Params) == 4 && sp[0].sliceAlong(argN(sp[0].call, 1))[fn.Params[1]] && sp[0].sliceAlong(argN(sp[0].call, 2))[fn.Params[2]]
+			c.Check("BitCask.Put:SetPos(flag,key,CurOffset|CurIndex)", "value-flow", ok, sp[0].call.Pos(), "the index entry of (flag, key) is the bitcask cursor (offset | file index) the record was flushed at")
+			// ... read AFTER checkAndFlush: that call rolls over to the next data file when the current one is full (it writes CurOffset and
+			// CurIndex); a position computed before it points into the old file for the one record that triggered the roll-over
+			okAfter := true
+			nLd := 0
+			for v := range pos {
+				ld, isLd := v.(*ssa.UnOp)
+				if !isLd || ld.Op != token.MUL {
+					continue
+				}
+				if f := core.FieldOf(ld.X); f == curOff || f == c.FieldVar(st+".BitCask", "CurIndex") {
+					nLd++
+					if ld.Parent() == fl[0].call.Parent() && !core.Dominates(fl[0].call, ld) {
+						okAfter = false
+					}
+				}
+			}
+			c.Check("BitCask.Put:cursor-read-after-checkAndFlush", "order", okAfter && nLd >= 2, sp[0].call.Pos(), "the cursor fields that make up the index position are loaded after checkAndFlush returned")
+			cur := sc[0].sliceAlong(argN(sc[0].call, 2))
+			c.Check("BitCask.Put:SetCurrentPos(CurOffset|CurIndex)", "value-flow", core.SliceHasField(cur, curOff), sc[0].call.Pos(), "the persisted cursor is computed from BitCask.CurOffset")
+		}
+		// checkAndFlush: flush heeded, at the cursor, length handed back
+		cf := c.Fn(st + ".BitCask.checkAndFlush")
+		flushObj := c.FuncObj(st + ".FileUtilsFlush")
+		ff := heeded(c, cf, flushObj, core.ErrNonNil, 1, nil)
+		if len(ff) == 1 {
+			length := core.ResultValues(ff[0])[0]
+			ok := core.SliceHasField(core.Slice(argN(ff[0], 1)), curOff) && len(cf.Params) == 2 && core.Slice(argN(ff[0], 2))[cf.Params[1]]
+			for _, r := range realReturns(cf) {
+				if core.ClassifyReturn(r, nil, nil) != core.RetFailure && (length == nil || !core.Derived(length)[core.RetVal(r, 0)]) {
+					ok = false
+				}
+			}
+			c.Check("checkAndFlush:FileUtilsFlush(CurOffset,data)→length", "value-flow", ok, ff[0].Pos(), "the record is flushed at the bitcask cursor and the flushed length is handed back")
+		}
+		// the index primitives pass the LevelDB error on
+		dbPut := c.Method(ldb+".DatabasePutter", "Put")
+		propagated(c, c.Fn(ldb+".SetPos"), 1, dbPut)
+		propagated(c, c.Fn(ldb+".SetCurrentPos"), 1, dbPut)
+		propagated(c, c.Fn(ldb+".SetCurrentBlock"), 1, dbPut)
 }
